@@ -140,7 +140,11 @@ def draw_base(rng, tier, need_zero_start=False):
     return x, cls, dt, periods, xi
 
 
-def draw_scalar(rng):
+def draw_scalar(rng, cls=''):
+    if rng.random() < 0.05 and 'extreme-scale' not in cls:
+        # extreme but valid scale factors: alpha*a is a normal double array whose SQUARES under/overflow (a zero test or a norm
+        # computed through squares then sees a silent record, or inf)
+        return float(rng.choice([-1.0, 1.0]) * 10.0 ** (rng.uniform(165, 200) * (1 if rng.random() < 0.5 else -1)))
     k = int(rng.integers(5))
     if k == 0:
         return float(rng.choice([-1.0, 1.0]) * 2.0 ** int(rng.integers(-6, 7)))
@@ -157,7 +161,7 @@ def g_lin(ctx, eqsig, g):
     rng = ctx.rng
     a, cls, dt, periods, xi = draw_base(rng, ctx.tier)
     b, cls2 = gen.record(rng, len(a))
-    al, be = draw_scalar(rng), draw_scalar(rng)
+    al, be = draw_scalar(rng, cls), draw_scalar(rng, cls)
     c = al * a + be * b
     tag = 'lin:g%d:' % g
     wit = lambda: {'kind': 'lin', 'a': a, 'b': b, 'alpha': al, 'beta': be, 'dt': dt, 'periods': periods, 'xi': xi}
@@ -201,7 +205,7 @@ def g_scale(ctx, eqsig, g):
     """spectra scale by |alpha| and ignore sign"""
     rng = ctx.rng
     a, cls, dt, periods, xi = draw_base(rng, ctx.tier)
-    al = draw_scalar(rng)
+    al = draw_scalar(rng, cls)
     if al == 0:
         al = -1.0
     tag = 'scale:g%d:' % g
@@ -504,7 +508,7 @@ def g_objlin(ctx, eqsig, g):
     rng = ctx.rng
     a, cls, dt, periods, xi = draw_base(rng, ctx.tier)
     periods = np.sort(periods[periods != 0])
-    al = draw_scalar(rng)
+    al = draw_scalar(rng, cls)
     if al == 0:
         al = 2.0
     wit = lambda: {'kind': 'objlin', 'a': a, 'alpha': al, 'dt': dt, 'periods': periods, 'xi': xi}
@@ -518,6 +522,8 @@ def g_objlin(ctx, eqsig, g):
         sig.gen_response_spectrum(xi=xi)
         s1 = [np.array(sig.s_d), np.array(sig.s_v), np.array(sig.s_a)]
     how = int(rng.integers(3))
+    if not 1e-6 < abs(al) < 1e6:
+        how = 0       # a + (alpha - 1) * a equals alpha * a only while alpha - 1 is computed without cancellation
     if how == 0:
         sig.reset_values(al * a)
     elif how == 1:
